@@ -15,6 +15,22 @@ def parseCrit (j : Json) : R Crit :=
 /-- K-run: whole runs through `sync_launch::launch` against the launch-layer model -/
 def replay (j : Json) : R Verdict := do
   let case ← asNat (fieldD j "case")
+  if (fieldD j "twoProcRuns").getBool?.toOption == some true then
+    -- run 1: a bool spec, 6 evaluations; run 2 (same thread): an int in [0,10] with the guess 7, 10 evaluations
+    let args := ((fieldD j "args").getArr?.toOption.getD #[]).toList.map (fun a => (a.getArr?.toOption.getD #[]).toList.map (fun x => x.getStr?.toOption.getD ""))
+    let mut pf : List String := []
+    match args with
+    | [a1, a2] =>
+      if a1.length != 6 || !(a1.all (fun x => x == "true" || x == "false")) then
+        pf := pf ++ [s!"C01: first run (bool spec, 6 evaluations): the children were given {a1}"]
+      let okInt (x : String) : Bool := match x.toInt? with | some i => decide (0 ≤ i ∧ i ≤ 10) | none => false
+      if a2.length != 10 || !(a2.all okInt) then
+        pf := pf ++ [s!"C01: second run on the same thread (an int in [0,10], 10 evaluations): the children were given {a2} - not parameter sets of this run"]
+      else if a2.head? != some "7" then
+        pf := pf ++ [s!"C08: second run on the same thread: the explicit guess 7 is not what the first child was given ({a2.head?})"]
+    | _ => pf := pf ++ [s!"C15: two process-objective runs on one thread: {(fieldD j "rets").compress}"]
+    let kind := if pf.isEmpty then "ok" else "PROPFAIL"
+    return { case, kind, props := (pf.map (fun f => (f.take 3).toString)).eraseDups, what := pf.head?.getD "", tags := ["run:two-process-runs"], size := 16, fails := pf }
   if (fieldD j "wide").getBool?.toOption == some true then
     -- 300 evaluations in flight, a time limit of 200 ms: the run returns its best result once they have ended
     let r := fieldD j "ret"
